@@ -30,6 +30,7 @@ static void on_fatal(int sig) {
     _exit(70);
 }
 
+void canary_init();
 static double now_s() { struct timespec t; clock_gettime(CLOCK_MONOTONIC, &t); return t.tv_sec + t.tv_nsec * 1e-9; }
 
 static std::string slurp(const char *p) { std::ifstream f(p); std::stringstream s; s << f.rdbuf(); return s.str(); }
@@ -45,6 +46,7 @@ int main(int argc, char **argv) {
     if (argc < 2) { fprintf(stderr, "usage: ecsim batch|gen|exec ...\n"); return 64; }
     std::string cmd = argv[1];
     engine_global_init();
+    canary_init();
     if (cmd == "gen" && argc >= 6) {
         Json p = gen_plan(argv[2], argv[3], strtoull(argv[4], 0, 10), strtoull(argv[5], 0, 10));
         printf("%s\n", p.dump().c_str());
